@@ -74,6 +74,19 @@ CLAIMED = {
         "model tied by sampled correspondence.",
         "DESIGN.md §7 C08",
     ),
+    "C18": (
+        "Lean 4 theorems over List α for Trim/Pad/Strip/Collapse/SplitCase/Default (length, prefix/suffix/infix, no strippable end, no adjacent listed characters, pieces re-joined by the separator, idempotence lifting) + differential test through compiled templates",
+        "Proved in Lean for every context and every valid argument set, over an arbitrary alphabet: Trim length "
+        "min(len,width) and prefix/suffix (negative widths crop), Pad length max(len,width) = pad* ++ input ++ pad*, "
+        "Strip removes only strippable characters at the chosen ends and leaves none there, idempotent, Collapse leaves "
+        "no two adjacent listed characters and keeps all others in order, SplitCase output is the input cut into pieces "
+        "re-joined with the separator, per-character idempotent tables are idempotent on strings and ASCII tables give "
+        "ASCII output; all functions are total and take no file. The real tags are compiled from template text and "
+        "rendered for different files and call orders; the library premises (upper, unidecode) are checked for all code points.",
+        "Trusted: Lean kernel; Unicode tables, unidecode, pathvalidate and the regex engine (contracts sampled / "
+        "enumerated per code point, not proved); hand-written model tied by sampled correspondence.",
+        "DESIGN.md §7 C18",
+    ),
 }
 
 NOT_YET = "check not built yet in this snapshot of /verif (work in progress, see DESIGN.md §7)"
